@@ -190,6 +190,22 @@ theorem iter_equals_format {α : Type} (c : Cfg) (rf : Nat → Nat → α) (hnf 
   rw [hs', hz', hz]
   exact spec_frame_is_format c rf hnf sp f ha.symm
 
+/-- a direct `format(image, spec)` right after `next()` is byte for byte the frame `next()` just
+    yielded — wherever the caller, an earlier render or a closed iterator left the underlying PIL
+    image (`Op.pilSeek` changes nothing: every render seeks the PIL image itself) -/
+theorem direct_render_equals_frame {α : Type} (c : Cfg) (rf : Nat → Nat → α) (hnf : 0 < c.nf) (hrep : c.rep ≠ 0)
+    (st : St α) (h : Reachable c rf st) (f : Option α) (hf : (step c rf st .next).2 = .frame f) :
+    (step c rf (step c rf st .next).1 .render).2 = .frame f ∧
+    ∀ k, (step c rf (step c rf (step c rf st .next).1 (.pilSeek k)).1 .render).2 = .frame f := by
+  obtain ⟨h1, _, h3⟩ := iter_equals_format c rf hnf hrep st h f hf
+  generalize step c rf st .next = r at h1 h3 ⊢
+  constructor
+  · show Ans.frame (some (rf r.1.seekPos r.1.size)) = _
+    rw [h3, ← h1]
+  · intro k
+    show Ans.frame (some (rf r.1.seekPos r.1.size)) = _
+    rw [h3, ← h1]
+
 /-- `seek_tracks_last` (second half): `ImageIterator.seek` and size changes never move `tell()` -/
 theorem seek_tracks_last {α : Type} (c : Cfg) (rf : Nat → Nat → α) (hnf : 0 < c.nf) (hrep : c.rep ≠ 0)
     (st : St α) (h : Reachable c rf st) (p : Int) (s : Nat) :
